@@ -105,8 +105,8 @@ func C08(r *core.Run) {
 		r.Finish(1)
 	}
 	defer md.Close()
-	kinds := []string{"500", "503-empty-body", "garbage", "reset", "long-outage", "mixed", "404-empty-body"}
-	nScripts := r.Pick(8, 14)
+	kinds := []string{"500", "503-empty-body", "garbage", "reset", "long-outage", "mixed", "404-empty-body", "500", "hang", "completions-during-outage"}
+	nScripts := r.Pick(10, 20)
 	var wg sync.WaitGroup
 	for si := 0; si < nScripts; si++ {
 		wg.Add(1)
@@ -160,6 +160,31 @@ func c08Script(r *core.Run, agentBin string, md *fakes.Metadata, si, rep int, ki
 	}
 	script = append(script, true, false, false, false, true, false, false, true)
 	resetIdx := nf + 1 // index of the first failure after the first success
+	backendAddr := "127.0.0.1:1"
+	var extra []string
+	var slowIDs []string
+	if kind == "hang" {
+		// the proxy accepts the list call and never answers: every call ends in the agent's own (short) time-out
+		extra = []string{"--proxy-timeout=300ms"}
+	}
+	if kind == "completions-during-outage" {
+		// the first list call succeeds and hands out three slow requests; the list endpoint then fails for good while
+		// fetches and uploads keep working, so requests complete in the middle of the back-off ramp
+		script = append([]bool{true}, script...)
+		resetIdx++
+		tb, err := newTokBackend()
+		if err != nil {
+			r.Broken(err.Error())
+			return false, false
+		}
+		defer tb.Srv.Close()
+		backendAddr = tb.Srv.Addr()
+		for k, d := range []int{700, 1500, 2600} {
+			id := fmt.Sprintf("s%dc8slow%d-%d-%d", r.Seed, si, rep, k)
+			slowIDs = append(slowIDs, id)
+			px.Store(id, tokRequest("GET", id, 50, d, "c08.example", nil, nil), "")
+		}
+	}
 	var mu sync.Mutex
 	var arrivals []time.Time
 	idx := 0
@@ -172,11 +197,24 @@ func c08Script(r *core.Run, agentBin string, md *fakes.Metadata, si, rep int, ki
 		// One connection per list call: Go's transport transparently re-sends an idempotent request
 		// when a *reused* connection is reset, which would show up as a second arrival without a sleep.
 		w.Header().Set("Connection", "close")
+		if i == 0 && len(slowIDs) > 0 {
+			b, _ := json.Marshal(slowIDs)
+			w.WriteHeader(200)
+			w.Write(b)
+			return true
+		}
 		if i >= len(script) || script[i] {
 			return false // success: default empty list
 		}
+		if kind == "hang" {
+			select {
+			case <-req.Context().Done():
+			case <-time.After(5 * time.Second):
+			}
+			return true
+		}
 		k := kind
-		if k == "long-outage" {
+		if k == "long-outage" || k == "completions-during-outage" {
 			k = "500"
 		}
 		if k == "mixed" {
@@ -206,7 +244,7 @@ func c08Script(r *core.Run, agentBin string, md *fakes.Metadata, si, rep int, ki
 		}
 		return true
 	}
-	agent, err := startAgent(r, agentBin, fmt.Sprintf("agent8-%d-%d", si, rep), md, px.URL(), "127.0.0.1:1", fmt.Sprintf("b8-%d", si))
+	agent, err := startAgent(r, agentBin, fmt.Sprintf("agent8-%d-%d", si, rep), md, px.URL(), backendAddr, fmt.Sprintf("b8-%d", si), extra...)
 	if err != nil {
 		r.Broken(err.Error())
 		return false, false
